@@ -1093,6 +1093,76 @@ pub fn worker(ctx: &mut Ctx) {
         }
     }
 
+    // R. comment groups made of directive-looking lines (compiler directives, linter pragmas, tool markers) and prose lines, in
+    //    every arrangement of up to three directives before / after up to two prose lines, LF and CRLF, in every comment
+    //    language with its own line marker; and every prefix of the two-directive groups (what an editor sends while typing)
+    {
+        let pool = [
+            "go:build linux && amd64", " +build linux", "go:noinline", "go:nosplit", "go:generate stringer -type=Pill", "go:embed hello.txt", "go:", "line a.go:10", "nolint:errcheck", "export Foo",
+            " @ts-ignore", " eslint-disable-next-line no-alert", "! crate docs", "/ item docs", " spell-checker:disable", " harper:ignore", "region Setup", ":", "#", " -*- coding: utf-8 -*-", " type: ignore", " TODO(zxqv): teh fix",
+        ];
+        let n_sent = corpus.sentences.len();
+        let every = ctx.budget(4, 1) as usize;
+        let k = (ctx.seed as usize) % every.max(1);
+        for fe in all_fes.iter().copied().filter(|f| f.is_comment()) {
+            let Fe::Comment(li) = fe else { continue };
+            let sx = langs::syntax(LANGS[li as usize]);
+            for marker in sx.line.iter() {
+                unit += 1;
+                if !ctx.mine(unit) {
+                    continue;
+                }
+                let (cfg, dialect) = stream.cfg_for(unit);
+                let mut r = Rng((unit).wrapping_mul(0xA24BAED4963EE407) ^ ctx.seed);
+                let line = |d: &str| format!("{marker}{d}");
+                let mut groups: Vec<Vec<String>> = Vec::new();
+                for a in pool.iter() {
+                    groups.push(vec![line(a)]);
+                    for b in pool.iter() {
+                        groups.push(vec![line(a), line(b)]);
+                    }
+                }
+                for _ in 0..40 {
+                    groups.push(vec![line(r.pick_str(&pool)), line(r.pick_str(&pool)), line(r.pick_str(&pool))]);
+                }
+                for (gi, g) in groups.iter().enumerate() {
+                    for tail in 0..4usize {
+                        if (gi * 5 + tail + k) % every.max(1) != 0 {
+                            continue;
+                        }
+                        let eol = if (gi + tail) % 3 == 2 { "\r\n" } else { "\n" };
+                        let mut lines: Vec<String> = g.clone();
+                        let p1 = &corpus.sentences[(gi * 7 + tail) % n_sent];
+                        let p2 = &corpus.sentences[(gi * 13 + tail + 1) % n_sent];
+                        match tail {
+                            1 => lines.push(format!("{marker} {p1}")),
+                            2 => {
+                                lines.push(format!("{marker} {p1}"));
+                                lines.push(format!("{marker} {p2}"));
+                            }
+                            3 => {
+                                lines.push(format!("{marker} {p1}"));
+                                lines.push(g[0].clone());
+                            }
+                            _ => {}
+                        }
+                        let stmt = if sx.stmt.is_empty() { String::new() } else { sx.stmt[0].replace("{N}", "1").replace("{S}", "zxqv") };
+                        let text = format!("{}{}{eol}{stmt}{eol}", sx.prelude, lines.join(eol));
+                        run!(Case { fam: "directive-group", fe, wrap: Wrap::None, text, cfg: cfg.clone(), dialect });
+                        if g.len() == 2 && gi % 16 == 1 {
+                            // mid-typing: every prefix of the group, at the end of the file
+                            let whole: Vec<char> = format!("{}{}", sx.prelude, lines.join(eol)).chars().collect();
+                            for cut in sx.prelude.chars().count()..whole.len() {
+                                let text: String = whole[..cut].iter().collect();
+                                run!(Case { fam: "directive-group-prefix", fe, wrap: Wrap::None, text, cfg: cfg.clone(), dialect });
+                            }
+                        }
+                    }
+                }
+            }
+        }
+    }
+
     // J. configurations x dialects on rule sentences
     {
         let n = ctx.budget(15_000, 250_000);
